@@ -9,9 +9,18 @@ pub struct Pay {
     pub b: u64,
 }
 
+thread_local! {
+    /// how the payload's Debug impl behaves on this thread: 0 normal, 1 returns Err, 2 panics
+    pub static PAY_DEBUG_MODE: std::cell::Cell<u8> = const { std::cell::Cell::new(0) };
+}
+
 impl std::fmt::Debug for Pay {
     fn fmt(&self, f: &mut std::fmt::Formatter<'_>) -> std::fmt::Result {
-        write!(f, "Pay({},{})", self.lid, self.a)
+        match PAY_DEBUG_MODE.with(|m| m.get()) {
+            1 => Err(std::fmt::Error),
+            2 => std::panic::resume_unwind(Box::new(crate::interp::Injected)),
+            _ => write!(f, "Pay({},{})", self.lid, self.a),
+        }
     }
 }
 
